@@ -85,6 +85,22 @@ CHECKS = {
              text="500-15000 runs: 1-5 filters over NP/PL/WL/TSS/TSU, globals and L2 fields, actions updating globals/locals, printing, assigning L2/L3 fields, action-less selecting filters, optional end filter, 0-40 packets, both magics, random snaplen/linktype/version/zone/sigfigs; held on everything observed.",
              note="Trusted: the 60-line stream-loop model in c20.py. Programs never raise inside a filter and print to stdout only with -s.",
              design="6/C20"),
+ "C21": dict(level="exploration", technique="reference-model monitor at the process boundary: input builtins (read, read_line, read_to_string, input, pcap_stream) of the real binary fed through pipes with adversarial chunking and delays, files, and empty / partial / EOF-without-newline streams; results compared with a Python model of the consumed prefix",
+             text="random read plans x random chunk / delay schedules on stdin pipes and files, both profiles; every byte is delivered exactly once, in order, to exactly one read; EOF is reported once and stays; held on everything observed.",
+             note="Trusted: the stream-consumption model in c21.py. Reads by byte count use ASCII data (a count that splits a UTF-8 sequence is outside the property).",
+             design="6/C21"),
+ "C22": dict(level="fault_enumeration", technique="fault enumeration at the OS boundary with an oracle on the outcome: every file / stdin / stdout / pcap builtin of the real binary x every environmental failure that can be provoked without a fault-injection library (ENOENT, EISDIR, ENOTDIR, EACCES via uid drop, EEXIST, ENOSPC on /dev/full, EPIPE on closed readers, EBADF on closed descriptors, truncated / garbage / oversize pcap data); monitor = 'error object or documented result, program continues, no panic, no partial success reported as success'",
+             text="the complete builtin x failure table (quick) plus randomised truncation points and repeated runs (thorough), both profiles; held on every row; rows that need a privilege drop are reported as not exercised when the drop is impossible.",
+             note="Trusted: the per-row expectation table in c22.py. Failures that need a failing disk mid-write other than /dev/full (EIO) cannot be provoked in this sandbox and are not exercised.",
+             design="6/C22"),
+ "C23": dict(level="exploration", technique="metamorphic monitor at the process boundary: the real run_prompt loop (line source replaced by the guarded scripted hook, which also marks every read on stdout and stderr) against the implementation's own -c / script mode run on the accepted lines so far; per-line stdout, acceptance and runtime-error status compared",
+             text="120-3000 histories of 1-12 lines: definitions, redefinitions, functions and closures over globals, printing and echoed uses, mutations, parse errors, compile errors (undefined names, break outside loop, errors inside function bodies, invalid match arms), runtime failures, continuation lines; both profiles; held on everything observed.",
+             note="Trusted: the segmentation of output by the hook's markers. dialoguer's terminal line editing is not exercised (the hook replaces it); the loop around it is the real one.",
+             design="6/C23"),
+ "C24": dict(level="exploration", technique="metamorphic + direct monitor at the process boundary: the same program run as a file, as a file with a shebang / comment first line and with -c, with the same argument vectors; stdout, stderr, exit status and argv compared between modes and with a direct expectation",
+             text="400-4000 programs ending in every kind of final statement, failing at a random statement or not, x 15+ argument-vector shapes (empty, unicode, spaces, empty strings, dash-prefixed after --), x exit statuses, both profiles; held on everything observed.",
+             note="Trusted: the expected-output bookkeeping of the generator in c24.py. Values echoed by -c are restricted to kinds with a fixed display.",
+             design="6/C24"),
 }
 
 PENDING_REASON = "check not built yet in this session (design in DESIGN.md section 6); not claimed until its monitor runs silently on the unchanged tree"
